@@ -6,6 +6,9 @@ CFG = {
     "theorems": [
         "Leptos.RView.C04_settles",
         "Leptos.RView.C04_settles_leaves",
+        "Leptos.RView.C04_settles_for",
+        "Leptos.RView.C04_for_rows_are_keys",
+        "Leptos.RView.C04_for_keeps_rows",
         "Leptos.RView.C04_untouched_nodes",
         "Leptos.RView.C04_show_no_rerender_same_branch",
         "Leptos.RView.C04_disposed_stays_empty",
@@ -30,6 +33,11 @@ CFG = {
         "Leptos.RView.setSignal_eff",
         "Leptos.RView.Good.serialize_eq",
         "Leptos.RView.Quiet.steps",
+        "Leptos.RView.QuietC.steps",
+        "Leptos.RView.poll_frame",
+        "Leptos.RView.forRows_eq",
+        "Leptos.RView.buildFor_kok",
+        "Leptos.RView.rerunFor_kok",
         "Leptos.RView.rerunIn_nodes",
         "Leptos.RView.show_poll_same",
         "Leptos.RView.memo_recompute",
@@ -65,10 +73,13 @@ CFG = {
     "assumptions": [
         "expressions of dynamic parts are pure functions of signals and memos (tracked reads only, no writes): the harness interprets them inside real closures",
         "attribute sources of one element have pairwise different names; key lists of a <For> are duplicate-free; rows of a <For> are static",
-        "C04_settles is proved unconditionally (every history, every schedule, disposal included) for views made of static structure, dynamic leaves "
-        "(text, attribute, class, style) and `move || Either` nested arbitrarily, all over signals; C04_untouched_nodes for the same without Either; "
-        "for Show / For and for parts reading memos the full statement C04_settles_full is kept as an OPEN def and covered by correspondence "
-        "(0 disagreements with the model on every generated history)",
+        "C04_settles (= C04_settles_for) is proved unconditionally (every history, every schedule, disposal included) for views made of static structure, "
+        "dynamic leaves (text, attribute, class, style), `move || Either` and <For> (through C11_build_wf / C11_storage_is_to / C11_dom_order) nested "
+        "arbitrarily, all over signals; C04_untouched_nodes for the same class, a <For> counting as ONE dynamic part (all its rows governed by the "
+        "list's effect; per-row identity under a re-run is C04_for_keeps_rows); for Show and for parts reading memos the full statement "
+        "C04_settles_full is kept as an OPEN def and covered by correspondence (0 disagreements with the model on every generated history): "
+        "their proof needs state-level convergence lemmas of the reactive core that tolerate disposed effects and programs growing during the run "
+        "(C02_effects_converge_readonly is run-level for a fixed program without lifecycle ops)",
         "C04_show_no_rerender_same_branch is proved for every state satisfying the explicit local pre-state ShowPre (what a write to a signal of the condition produces), "
         "with a kernel-checked reachable instance; it is not (yet) chained through an invariant over all reachable states of programs containing Show",
     ],
